@@ -290,8 +290,14 @@ def _dir():
 
 
 def teardown():
+    _drop_lazy()
+
+
+def _drop_lazy():
+    """a directory created outside setup() (shrink / --replay) is removed right after the call"""
     if _state.get("lazy"):
-        shutil.rmtree(_state["dir"], ignore_errors=True)
+        shutil.rmtree(_state.pop("dir"), ignore_errors=True)
+        _state["lazy"] = False
 
 
 class _TdbStub(dict):
@@ -473,6 +479,13 @@ def _apply(cache, u):
 
 
 def impl(inp):
+    try:
+        return _impl(inp)
+    finally:
+        _drop_lazy()
+
+
+def _impl(inp):
     import breezy.bzr  # noqa
     import breezy.git  # noqa
     from breezy.git import cache as C
